@@ -1091,7 +1091,7 @@ def translate(path, cfg):
         if f not in protos:
             if f in m.funcs: fn = m.funcs[f]; protos[f] = (fn.ret, [t for t, _ in fn.params]); info.setdefault('stubs_unused', []).append(f)
             elif f in m.decls: protos[f] = (m.decls[f][0], m.decls[f][1]); info.setdefault('stubs_unused', []).append(f)
-            else: die("stub symbol missing from the IR: " + f)
+            else: info.setdefault('stubs_missing', []).append(f)   # no longer called / instantiated: nothing to replace
     # layout guards
     for (tyname, member, index) in cfg.get('layout_guards', []):
         hits = 0
